@@ -145,7 +145,7 @@ def cdrsize_records(ctx, res, pid, ops, obs, start_of):
                     q = "recbytes %s %s %s %s" % tuple(env)
                     want.setdefault(q, (hx, i))
         kind = ops[i].split(" ")[1] if " " in ops[i] else ""
-        if kind in ("update", "fit", "fiton") and d.get("prf", "-") != "-" and "rq" in d and d.get("st") == "200":
+        if kind in ("update", "fit", "fiton", "fitbare") and d.get("prf", "-") != "-" and "rq" in d and d.get("st") == "200":
             env = d["prf"].split("/", 3)
             if len(env) == 4:
                 gq["recguard %s %s %s %s %s" % (env[0], env[1], env[2], env[3], d["rq"])] = i
